@@ -1106,6 +1106,17 @@ namespace adept {
     if (offdiag >= 0) {
       Index new_dim = std::min(dims[0], dims[1]-offdiag);
       Array<1,Type,E::is_active> v(new_dim);
+#ifdef ADEPT_RECORDING_PAUSABLE
+      if (!ADEPT_ACTIVE_STACK->is_recording()) {
+	for (int j = 0; j < new_dim; ++j) {
+	  i[0] = j;
+	  i[1] = j+offdiag;
+	  arg.set_location(i, ind);
+	  v.data()[j] = arg.next_value(ind);
+	}
+	return v;
+      }
+#endif
       ADEPT_ACTIVE_STACK->check_space(E::n_active * new_dim);
       for (int j = 0; j < new_dim; ++j) {
 	i[0] = j;
@@ -1119,6 +1130,17 @@ namespace adept {
     else {
       Index new_dim = std::min(dims[0]+offdiag, dims[1]);
       Array<1,Type,E::is_active> v(new_dim);
+#ifdef ADEPT_RECORDING_PAUSABLE
+      if (!ADEPT_ACTIVE_STACK->is_recording()) {
+	for (int j = 0; j < new_dim; ++j) {
+	  i[0] = j-offdiag;
+	  i[1] = j;
+	  arg.set_location(i, ind);
+	  v.data()[j] = arg.next_value(ind);
+	}
+	return v;
+      }
+#endif
       ADEPT_ACTIVE_STACK->check_space(E::n_active * new_dim);
       for (int j = 0; j < new_dim; ++j) {
 	i[0] = j-offdiag;
